@@ -1,6 +1,7 @@
 package main
 
 import (
+	"bufio"
 	"bytes"
 	"crypto/sha256"
 	"encoding/base64"
@@ -12,6 +13,8 @@ import (
 	"net"
 	"net/http"
 	"net/http/httptest"
+	"os"
+	"os/exec"
 	"strings"
 	"sync"
 	"time"
@@ -37,6 +40,7 @@ type c18Req struct {
 	Sym      string `json:"sym"`
 	Auth     bool   `json:"auth"`
 	Accepted bool   `json:"accepted"`
+	MIT      string `json:"mit"` // verdict of MIT's acceptor on the same token: "accepted" (complete, right client, intended service), "refused", "" (not asked)
 	BodyOK   bool   `json:"bodyOK"`
 	Method   string `json:"method"`
 }
@@ -59,7 +63,7 @@ type scriptedServers struct {
 
 const c18Cap = 60
 
-func (s *scriptedServers) handler(self, other func() string, acceptor *spnego.SPNEGO) http.HandlerFunc {
+func (s *scriptedServers) handler(self, other func() string, acceptor *spnego.SPNEGO, intended string) http.HandlerFunc {
 	return func(w http.ResponseWriter, r *http.Request) {
 		// always drain the request body before answering (assumption of the check, stated in the evidence)
 		body, _ := io.ReadAll(r.Body)
@@ -75,6 +79,16 @@ func (s *scriptedServers) handler(self, other func() string, acceptor *spnego.SP
 		if h := r.Header.Get("Authorization"); strings.HasPrefix(h, "Negotiate ") {
 			rec.Auth = true
 			if tb, err := base64.StdEncoding.DecodeString(strings.TrimPrefix(h, "Negotiate ")); err == nil {
+				if c18mit != nil {
+					// the independent acceptor: MIT's gss_accept_sec_context with the keytab of both hosts; the ticket must be for the
+					// principal of the host the request went to, and the client must be the one that logged in
+					if v, ok := c18mit.accept(tb); ok {
+						rec.MIT = "refused"
+						if v.Complete && v.Client == s.cname+"@"+s.crealm && v.Service == intended+"@"+s.crealm {
+							rec.MIT = "accepted"
+						}
+					}
+				}
 				var st spnego.SPNEGOToken
 				if st.Unmarshal(tb) == nil {
 					ok, ctx, _ := acceptor.AcceptSecContext(&st)
@@ -123,6 +137,8 @@ func cmdC18(args []string) error {
 	tier := fs.String("tier", "quick", "quick|thorough")
 	out := fs.String("out", "trace.ndjson", "trace file")
 	scriptsF := fs.String("scripts", "scripts.ndjson", "server scripts from GenC18")
+	mitRef := fs.String("mitref", "", "path of the mitref binary: MIT's acceptor judges every token as well")
+	mitDir := fs.String("mitdir", ".", "scratch directory for the keytab MIT reads")
 	fs.Parse(args)
 	thorough := *tier == "thorough"
 	r := rand.New(rand.NewSource(*seed))
@@ -176,6 +192,22 @@ func cmdC18(args []string) error {
 		kt := keytab.New()
 		for _, spn := range []string{"HTTP/127.0.0.1", "HTTP/127.0.0.2", "HTTP/explicit.c18.test"} {
 			if err := kt.AddEntry(spn, realm, "svc-"+spn, time.Now(), 1, et); err != nil {
+				return err
+			}
+		}
+		if *mitRef != "" {
+			if c18mit != nil {
+				c18mit.close()
+			}
+			kb, err := kt.Marshal()
+			if err != nil {
+				return err
+			}
+			ktf := fmt.Sprintf("%s/c18_%d.keytab", *mitDir, et)
+			if err := os.WriteFile(ktf, kb, 0600); err != nil {
+				return err
+			}
+			if c18mit, err = startMITAcceptor(*mitRef, ktf); err != nil {
 				return err
 			}
 		}
@@ -234,8 +266,8 @@ func runC18(tw *traceWriter, cl *client.Client, kt *keytab.Keytab, realm string,
 	s.b.Start()
 	defer s.a.Close()
 	defer s.b.Close()
-	s.a.Config.Handler = s.handler(func() string { return s.a.URL }, func() string { return s.b.URL }, accA)
-	s.b.Config.Handler = s.handler(func() string { return s.b.URL }, func() string { return s.a.URL }, accB)
+	s.a.Config.Handler = s.handler(func() string { return s.a.URL }, func() string { return s.b.URL }, accA, princA)
+	s.b.Config.Handler = s.handler(func() string { return s.b.URL }, func() string { return s.a.URL }, accB, princB)
 	hc := spnego.NewClient(cl, &http.Client{Timeout: 20 * time.Second}, spn)
 	var rd io.Reader
 	if method == "POST" || blen > 0 {
@@ -284,4 +316,60 @@ func runC18(tw *traceWriter, cl *client.Client, kt *keytab.Keytab, realm string,
 	tw.emit(map[string]interface{}{"script": sc.Script, "tail": sc.Tail, "method": method, "bodyLen": blen, "spnMode": spnMode, "et": et,
 		"reqs": reqs, "capped": capped, "result": result, "panic": p, "errtext": et2})
 	return nil
+}
+
+// ---- MIT's acceptor as a co-process (spec/mit/mitref, operation gssaccept)
+type mitAcceptor struct {
+	mu    sync.Mutex
+	cmd   *exec.Cmd
+	stdin io.WriteCloser
+	rd    *bufio.Reader
+}
+
+type mitVerdict struct {
+	Complete bool   `json:"complete"`
+	Client   string `json:"client"`
+	Service  string `json:"service"`
+	Major    uint32 `json:"major"`
+}
+
+var c18mit *mitAcceptor
+
+func startMITAcceptor(ref, keytabFile string) (*mitAcceptor, error) {
+	cmd := exec.Command(ref)
+	cmd.Env = append(os.Environ(), "KRB5_KTNAME=FILE:"+keytabFile, "KRB5RCACHETYPE=none", "KRB5_CONFIG=/dev/null")
+	in, err := cmd.StdinPipe()
+	if err != nil {
+		return nil, err
+	}
+	out, err := cmd.StdoutPipe()
+	if err != nil {
+		return nil, err
+	}
+	if err := cmd.Start(); err != nil {
+		return nil, err
+	}
+	return &mitAcceptor{cmd: cmd, stdin: in, rd: bufio.NewReaderSize(out, 1<<20)}, nil
+}
+
+func (m *mitAcceptor) accept(tok []byte) (mitVerdict, bool) {
+	m.mu.Lock()
+	defer m.mu.Unlock()
+	var v mitVerdict
+	if len(tok) == 0 {
+		return v, false
+	}
+	if _, err := fmt.Fprintf(m.stdin, "gssaccept %s\n", hx(tok)); err != nil {
+		return v, false
+	}
+	b, err := m.rd.ReadBytes('\n')
+	if err != nil || json.Unmarshal(b, &v) != nil {
+		return v, false
+	}
+	return v, true
+}
+
+func (m *mitAcceptor) close() {
+	m.stdin.Close()
+	m.cmd.Wait()
 }
